@@ -40,6 +40,155 @@ MUTANTS = [
       (M, "            return Err(PoolError::PostCreateHook(e));\n        }\n\n        Ok(Some(unready_obj.ready()))", "            return Err(PoolError::PostCreateHook(e));\n        }\n        self.inner.slots.lock().unwrap().size += 1;\n\n        Ok(Some(unready_obj.ready()))")),
 ]
 
+MUTANTS += [
+    m('B02-1', 'return_object: no add_permits', ['C02'], ['R02.2'],
+      (M, "            drop(slots);\n            self.semaphore.add_permits(1);\n        } else {", "            drop(slots);\n        } else {")),
+    m('B02-2', 'recycler: failed pre-hook ends the call with an error', ['C02', 'C04'], ['R02.3', 'R04.5'],
+      (M, "            // TODO log pre_recycle error\n            return Ok(None);", "            // TODO log pre_recycle error\n            return Err(PoolError::Closed);")),
+    m('B02-3', 'retain: status() under the lock', ['C02'], ['R02.6'],
+      (M, "        let mut i = 0;\n        // This code can be simplified", "        let mut i = self.status().size - self.status().size;\n        // This code can be simplified")),
+    m('B02-4', 'slots guard held across try_create().await', ['C02'], ['R02.6'],
+      (M, "            } else {\n                self.try_create(timeouts).await?\n            };", "            } else {\n                let _g = self.inner.slots.lock().unwrap();\n                self.try_create(timeouts).await?\n            };")),
+    m('B02-5', 'Object::drop unwraps the upgrade', ['C02'], ['R02.4'],
+      (M, "            if let Some(pool) = self.pool.upgrade() {\n                pool.return_object(inner)\n            }", "            self.pool.upgrade().unwrap().return_object(inner)")),
+    m('B02-6', 'return_object: early return keeps the permit', ['C02'], ['R02.2'],
+      (M, "        let mut slots = self.slots.lock().unwrap();\n        if slots.size <= slots.max_size {\n            slots.vec.push_back(inner);", "        let mut slots = self.slots.lock().unwrap();\n        if inner.metrics.recycle_count > 100_000 {\n            slots.size -= 1;\n            return;\n        }\n        if slots.size <= slots.max_size {\n            slots.vec.push_back(inner);")),
+    m('B02-7', 'Object gets a method emptying inner through &mut', ['C02'], ['R02.5'],
+      (M, "    /// Get object statistics\n    pub fn metrics(this: &Self) -> &Metrics {", "    /// Invalidate\n    pub fn invalidate(this: &mut Self) {\n        drop(this.inner.take());\n    }\n\n    /// Get object statistics\n    pub fn metrics(this: &Self) -> &Metrics {")),
+    m('B02-8', 'post_recycle hook invoked under the slots lock', ['C02'], ['R02.6'],
+      (M, "        if let Err(_e) = self.inner.hooks.post_recycle.apply(inner).await {", "        let _g = self.inner.slots.lock().unwrap();\n        if let Err(_e) = self.inner.hooks.post_recycle.apply(inner).await {")),
+    m('B02-9', 'getter breaks out of the loop on a rejected object', ['C02'], ['R02.3'],
+      (M, "            if let Some(inner_obj) = inner_obj {\n                break inner_obj;\n            }\n        };", "            match inner_obj {\n                Some(inner_obj) => break inner_obj,\n                None => return Err(PoolError::Closed),\n            }\n        };")),
+]
+
+MUTANTS += [
+    m('B03-1', 'users guard dropped immediately (let _ =) and no disarm', ['C03'], ['R03.1'],
+      (M, "        let users_guard = DropGuard(|| {", "        let _ = DropGuard(|| {"),
+      (M, "        users_guard.disarm();\n", "")),
+    m('B03-2', 'recycler wraps the object only after the pre_recycle hooks', ['C03'], ['R03.1', 'R03.4'],
+      (M, """        let mut unready_obj = UnreadyObject {
+            inner: Some(inner_obj),
+            pool: &self.inner,
+        };
+        let inner = unready_obj.inner();
+
+        // Apply pre_recycle hooks
+        if let Err(_e) = self.inner.hooks.pre_recycle.apply(inner).await {
+            // TODO log pre_recycle error
+            return Ok(None);
+        }
+""", """        let mut inner_obj = inner_obj;
+        // Apply pre_recycle hooks
+        if let Err(_e) = self.inner.hooks.pre_recycle.apply(&mut inner_obj).await {
+            // TODO log pre_recycle error
+            self.inner.slots.lock().unwrap().size -= 1;
+            self.inner.manager.detach(&mut inner_obj.obj);
+            return Ok(None);
+        }
+        let mut unready_obj = UnreadyObject {
+            inner: Some(inner_obj),
+            pool: &self.inner,
+        };
+        let inner = unready_obj.inner();
+""")),
+    m('B03-3', 'users_guard.disarm() moved above the loop', ['C03'], ['R03.2', 'R03.1'],
+      (M, "        let inner_obj = loop {\n            let inner_obj = match self.inner.config.queue_mode {", "        users_guard.disarm();\n        let inner_obj = loop {\n            let inner_obj = match self.inner.config.queue_mode {"),
+      (M, "        users_guard.disarm();\n        permit.forget();\n", "        permit.forget();\n")),
+    m('B03-4', 'Drop for UnreadyObject: no size -= 1', ['C03'], ['R03.3'],
+      (M, "            self.pool.slots.lock().unwrap().size -= 1;\n            self.pool.manager.detach(&mut inner.obj);", "            self.pool.manager.detach(&mut inner.obj);")),
+    m('B03-5', 'Drop for UnreadyObject: no detach', ['C03'], ['R03.3'],
+      (M, "            self.pool.slots.lock().unwrap().size -= 1;\n            self.pool.manager.detach(&mut inner.obj);", "            self.pool.slots.lock().unwrap().size -= 1;\n            let _ = &mut inner;")),
+    m('B03-6', 'guard closure subtracts 0', ['C03'], ['R03.3'],
+      (M, "            let _ = self.inner.users.fetch_sub(1, Ordering::Relaxed);\n        });", "            let _ = self.inner.users.fetch_sub(0, Ordering::Relaxed);\n        });")),
+    m('B03-7', 'creator: post_create hooks run on the bare object, wrapped afterwards', ['C03', 'C01'], ['R03.1', 'R01.5'],
+      (M, """        let mut unready_obj = UnreadyObject {
+            inner: Some(ObjectInner {
+                obj: apply_timeout(
+                    self.inner.runtime,
+                    TimeoutType::Create,
+                    timeouts.create,
+                    self.inner.manager.create(),
+                )
+                .await?,
+                metrics: Metrics::default(),
+            }),
+            pool: &self.inner,
+        };
+
+        self.inner.slots.lock().unwrap().size += 1;
+
+        // Apply post_create hooks
+        if let Err(e) = self
+            .inner
+            .hooks
+            .post_create
+            .apply(unready_obj.inner())
+            .await
+        {
+            return Err(PoolError::PostCreateHook(e));
+        }
+""", """        let mut bare = ObjectInner {
+                obj: apply_timeout(
+                    self.inner.runtime,
+                    TimeoutType::Create,
+                    timeouts.create,
+                    self.inner.manager.create(),
+                )
+                .await?,
+                metrics: Metrics::default(),
+            };
+
+        // Apply post_create hooks
+        if let Err(e) = self
+            .inner
+            .hooks
+            .post_create
+            .apply(&mut bare)
+            .await
+        {
+            self.inner.manager.detach(&mut bare.obj);
+            return Err(PoolError::PostCreateHook(e));
+        }
+        let unready_obj = UnreadyObject {
+            inner: Some(bare),
+            pool: &self.inner,
+        };
+        self.inner.slots.lock().unwrap().size += 1;
+""")),
+    m('B03-8', 'DropGuard::drop does not call the closure', ['C03'], ['R03.3'],
+      ('src/managed/dropguard.rs', "    fn drop(&mut self) {\n        (self.0)()\n    }", "    fn drop(&mut self) {\n        let _ = &self.0;\n    }")),
+    m('B03-9', 'recycler: ready() before the post_recycle hooks', ['C03', 'C04'], ['R03.2', 'R04.1'],
+      (M, """        // Apply post_recycle hooks
+        if let Err(_e) = self.inner.hooks.post_recycle.apply(inner).await {
+            // TODO log post_recycle error
+            return Ok(None);
+        }
+
+        inner.metrics.recycle_count += 1;
+        #[cfg(not(target_arch = "wasm32"))]
+        {
+            inner.metrics.recycled = Some(Instant::now());
+        }
+
+        Ok(Some(unready_obj.ready()))""", """        inner.metrics.recycle_count += 1;
+        #[cfg(not(target_arch = "wasm32"))]
+        {
+            inner.metrics.recycled = Some(Instant::now());
+        }
+        let mut ready = unready_obj.ready();
+        // Apply post_recycle hooks
+        if let Err(_e) = self.inner.hooks.post_recycle.apply(&mut ready).await {
+            // TODO log post_recycle error
+            self.inner.slots.lock().unwrap().size -= 1;
+            self.inner.manager.detach(&mut ready.obj);
+            return Ok(None);
+        }
+
+        Ok(Some(ready))""")),
+    m('B03-10', 'users += 1 twice', ['C03'], ['R03.3'],
+      (M, "        let _ = self.inner.users.fetch_add(1, Ordering::Relaxed);\n        let users_guard", "        let _ = self.inner.users.fetch_add(1, Ordering::Relaxed);\n        let _ = self.inner.users.fetch_add(1, Ordering::Relaxed);\n        let users_guard")),
+]
+
 BENIGN = [
     m('N01-1', 'return_object: max_size >= size', ['C01'], [],
       (M, "        if slots.size <= slots.max_size {\n            slots.vec.push_back(inner);", "        if slots.max_size >= slots.size {\n            slots.vec.push_back(inner);")),
